@@ -6,8 +6,10 @@
 # sub-options, unedited, after 1..6 random layout-preserving edits, and after layout-breaking edits.
 # Oracles (specification side): the extracted layout recogniser (coq/File/QdfLayout.v) on real --qdf output and
 # on every edited file; the extracted strict reader (coq/File/ReadStrict.v) on what the real fix-qdf wrote,
-# compared with the document the edit script denotes; cmp for identity and idempotence.
-import base64, os, re, resource, subprocess, zlib
+# compared with the document the edit script denotes; cmp for identity and idempotence; the dictionaries of the object
+# streams (fix-qdf rebuilds them; /Extends is the one key it carries over) are compared key by key before / after, on
+# preserved object streams linked by /Extends in every acyclic pattern.
+import base64, itertools, os, re, resource, subprocess, zlib
 import common, filecheck, pdfgen
 from pdfgen import Name, Ref, Str, Real, Stream, D, N
 
@@ -16,6 +18,7 @@ ASSUMPTIONS = [
     "the strict reader (C02's specification) judges the repaired file; the document an edit script denotes is computed by the generator on the object model (pdfgen), independently of fix-qdf and of its model",
     "QDF files above 150 kB are not used (the extracted list-based reader and model are slow on them)",
     "edit scripts: byte insertions/deletions inside stream data, key insertion/change/removal in top-level dictionaries (also of object-stream members), comments/blank lines, stale numbers in the parts fix-qdf regenerates, appended objects; renumbering edits (deleting objects) are outside the manual's contract and not generated",
+    "object-stream dictionaries: fix-qdf recomputes /Length /N /First; every other key (the writer only ever emits /Extends) must survive the repair unchanged and no key may appear; /Extends edits keep the chains acyclic (ISO 32000 7.5.7); known finding C17-F5 (a key added by hand behind the /Type /ObjStm line is dropped) is re-observed by an aimed edit on every file with several object streams and is accepted only when exactly the hand-added keys are missing",
     "known finding C17-F1 (an `endstream` line inside stream data) is re-observed on a dedicated input; the inputs of the repaired C17-F2 (marker text inside a string or a longer name, fix e1b84020) stay in the run as regression inputs; F3 (--newline-before-endstream with object streams) and F4 (--preserve-unreferenced keeps original object streams) when the option sample contains them; files of these classes are not used as bases for edit scripts",
 ]
 
@@ -174,6 +177,7 @@ class Edited:
         self.trailer = dict(sd.trailer)
         self.script = []
         self.counter = 0
+        self.hand_keys = {}       # object stream -> keys added by hand to its dictionary behind the /Type /ObjStm line
 
     def idx(self):
         return qdf_index(self.lines)
@@ -428,8 +432,145 @@ def ed_append(rng, e):
     return True
 
 
+def _objstms(e, idx):
+    return [o for o in idx.objs if o.kind == "objstm" and isinstance(e.exp.get(o.num), Stream)]
+
+
+def _extends_reaches(e, start, goal):
+    """does the /Extends chain that starts at object stream `start` reach `goal`?"""
+    seen, c = set(), start
+    while c is not None and c not in seen:
+        if c == goal:
+            return True
+        seen.add(c)
+        v = e.exp.get(c)
+        r = v.d.get(b"Extends") if isinstance(v, Stream) else None
+        c = r.n if isinstance(r, Ref) else None
+    return False
+
+
+def ed_extends(rng, e, only=None, how=None):
+    """hand edit of the one key of an object-stream dictionary fix-qdf does not recompute: remove the /Extends line, point
+    it at another object stream, or add one (the chains stay acyclic, 7.5.7)"""
+    idx = e.idx()
+    ss = _objstms(e, idx)
+    if len(ss) < 2:
+        return False
+    o = rng.choice([x for x in ss if only is None or x.num == only] or ss)
+    top = e.exp[o.num].d
+    have = [li for li in range(o.c0, o.c1) if re.match(rb"  /Extends \d+ 0 R\n\Z", e.lines[li])]
+    if len(have) > 1 or (b"Extends" in top) != (len(have) == 1):
+        return False
+    targets = [x.num for x in ss if x.num != o.num and not _extends_reaches(e, x.num, o.num)
+               and not (have and top.get(b"Extends") == Ref(x.num))]
+    how = how or rng.choice(["remove", "retarget", "add"])
+    if how == "remove" and have:
+        del e.lines[have[0]]
+        del top[b"Extends"]
+        e.script.append("remove the /Extends line of object stream %d" % o.num)
+        return True
+    if how == "retarget" and have and targets:
+        t = rng.choice(targets)
+        e.lines[have[0]] = b"  /Extends %d 0 R\n" % t
+        top[b"Extends"] = Ref(t)
+        e.script.append("object stream %d: /Extends now names object stream %d" % (o.num, t))
+        return True
+    if how == "add" and not have and targets and e.lines[o.c0] == b"<<\n" and e.lines[o.c1 - 1] == b">>\n":
+        t = rng.choice(targets)
+        li = rng.randint(o.c0 + 1, o.c1 - 1)
+        e.lines.insert(li, b"  /Extends %d 0 R\n" % t)
+        top[b"Extends"] = Ref(t)
+        e.script.append("add the line /Extends %d 0 R to the dictionary of object stream %d (line %d)" % (t, o.num, li + 1))
+        return True
+    return False
+
+
+def ed_objstm_key(rng, e, only=None, before_type=None):
+    """hand edit: one more key in the dictionary of an object stream (dictionary text like any other)"""
+    idx = e.idx()
+    ss = [o for o in _objstms(e, idx) if (only is None or o.num == only) and e.lines[o.c0] == b"<<\n" and e.lines[o.c0 + 1] == b"  /Type /ObjStm\n"]
+    if not ss:
+        return False
+    o = rng.choice(ss)
+    e.counter += 1
+    key = b"VerifO%d" % e.counter
+    v = rng.choice([7, Name(b"ByHand"), Str(b"by hand"), [1, 2]])
+    before = rng.random() < 0.5 if before_type is None else before_type
+    li = o.c0 + 1 if before else rng.randint(o.c0 + 2, o.c1 - 1)
+    e.lines.insert(li, b"  /" + key + b" " + pdfgen.ser(v) + b"\n")
+    e.exp[o.num].d[key] = v
+    if not before:
+        e.hand_keys.setdefault(o.num, set()).add(key)
+    e.script.append("add key /%s to the dictionary of object stream %d %s its /Type /ObjStm line (line %d)" % (key.decode(), o.num, "before" if before else "behind", li + 1))
+    return True
+
+
+def ed_member(rng, e, container):
+    """a length-changing edit inside one member of the object stream `container`"""
+    idx = e.idx()
+    ms = [m for o in idx.objs if o.num == container for m in o.members if m.c1 > m.c0 and e.lines[m.c0] == b"<<\n"
+          and isinstance(_top(e.exp.get(m.num)), dict)]
+    if not ms:
+        return False
+    m = rng.choice(ms)
+    top = e.exp[m.num]
+    ints = [(li, mm.group(1)) for li in range(m.c0 + 1, m.c1) for mm in [INTLINE.match(e.lines[li])]
+            if mm and mm.group(1) not in PROTECTED and top.get(mm.group(1)) == int(mm.group(2)) and not isinstance(top.get(mm.group(1)), bool)]
+    k = rng.randrange(3)
+    if k == 0 and ints:
+        li, key = rng.choice(ints)
+        nv = rng.choice([0, 1234567, 10 ** rng.randint(2, 15)])
+        e.lines[li] = b"  /" + key + b" " + str(nv).encode() + b"\n"
+        top[key] = nv
+        e.script.append("change /%s of object %d (member of object stream %d) to %d" % (key.decode(), m.num, container, nv))
+        return True
+    if k == 1 and ints:
+        li, key = rng.choice(ints)
+        del e.lines[li]
+        del top[key]
+        e.script.append("remove /%s from object %d (member of object stream %d)" % (key.decode(), m.num, container))
+        return True
+    e.counter += 1
+    key = b"VerifM%d" % e.counter
+    v = _value(rng)
+    text = b"  /" + key + b" " + pdfgen.ser(v) + b"\n"
+    if b"\n" in text[:-1] or b"/Type /" in text:
+        return False
+    e.lines.insert(m.c0 + 1, text)
+    top[key] = v
+    e.script.append("add key /%s (%d bytes) to object %d (member of object stream %d)" % (key.decode(), len(text), m.num, container))
+    return True
+
+
+def directed_scripts(rng, lines, fresh, idx):
+    """edit scripts aimed at files with several object streams: an edit inside EACH object stream (alone, and all
+    together), each way of editing an /Extends line, both combined, and a key added by hand to an object-stream dictionary
+    before / behind its /Type line.  `fresh()` returns a new copy of the object model."""
+    ss = [o.num for o in idx.objs if o.kind == "objstm"]
+    plans = [[("member", n)] for n in ss]
+    plans.append([("member", n) for n in ss])
+    for how in ("remove", "retarget", "add"):
+        plans.append([("extends", how)] + ([("member", rng.choice(ss)), ("member", rng.choice(ss))] if rng.random() < 0.5 else []))
+    n1, n2 = rng.choice(ss), rng.choice(ss)
+    plans.append([("key", (n1, True))])
+    plans.append([("key", (n2, False)), ("member", n2)])
+    out = []
+    for plan in plans:
+        e = Edited(lines, fresh(), idx)
+        ok = True
+        for what, arg in plan:
+            for _ in range(4):
+                if (ed_member(rng, e, arg) if what == "member" else ed_extends(rng, e, how=arg) if what == "extends" else ed_objstm_key(rng, e, arg[0], arg[1])):
+                    break
+            else:
+                ok = False
+        if e.script and (ok or plan[0][0] == "member"):
+            out.append(e)
+    return out
+
+
 EDITS = [ed_stream_insert, ed_stream_insert, ed_stream_delete, ed_dict_add, ed_dict_add, ed_dict_change, ed_dict_remove,
-         ed_comment, ed_stale, ed_stale, ed_append]
+         ed_comment, ed_stale, ed_stale, ed_append, ed_extends]
 
 
 def make_edit(rng, lines, sd, idx, nedits):
@@ -464,8 +605,16 @@ def doc_problems(e, sd):
             for i, m in enumerate(e.members_of[n]):
                 if sd.where.get((m, 0)) != ["c", n, i]:
                     probs.append("object %d is not member %d of object stream %d: %s" % (m, i, n, sd.where.get((m, 0))))
-            if isinstance(want, Stream) and want.d.get(b"Extends") != have.d.get(b"Extends"):
-                probs.append("object stream %d lost /Extends" % n)
+            # the regenerated dictionary: /Type /Length /N /First and exactly the stream's own /Extends, nothing else
+            if isinstance(want, Stream) and isinstance(have, Stream):
+                dw = {k: v for k, v in want.d.items() if k not in (b"Length", b"First")}
+                dh = {k: v for k, v in have.d.items() if k not in (b"Length", b"First")}
+                hk = e.hand_keys.get(n, set())
+                if hk and dw != dh and {k: v for k, v in dw.items() if k not in hk} == dh and all(isinstance(have.d.get(k), int) for k in (b"Length", b"First")):
+                    # known finding C17-F5: exactly the keys added by hand behind the /Type line are gone, nothing else differs
+                    probs.append("C17-F5: object stream %d: the key(s) %s added by hand to its dictionary are gone from the repaired file" % (n, sorted(k.decode() for k in hk)))
+                elif dw != dh or not all(isinstance(have.d.get(k), int) for k in (b"Length", b"First")):
+                    probs.append("dictionary of object stream %d: expected %s (and integer /Length /First), repaired file has %s" % (n, objstm_dict_text(dw), objstm_dict_text(have.d)))
         elif k == "xref":
             if not (isinstance(have, Stream) and have.d.get(b"Type") == Name(b"XRef")):
                 probs.append("object %d is not the xref stream" % n)
@@ -566,6 +715,129 @@ def special_docs(rng):
         d.objects[1][b"Extras"] = d.add(ex)
         d.trailer[b"Info"] = d.add(D(Title=Str(b"special %d" % i)))
         out.append(("special%d" % i, pdfgen.write_classic(d, with_id=(b"0123456789abcdef", b"fedcba9876543210"))[0], d))
+    return out
+
+
+def objstm_dict_text(d):
+    return "<< " + " ".join("/%s %s" % (k.decode("latin-1"), pdfgen.ser(v).decode("latin-1")) for k, v in sorted(d.items())) + " >>"
+
+
+def acyclic_extends(k):
+    """every way k object streams can name each other in /Extends without a cycle: tuples t, t[i] = index of the stream
+    that stream i extends, or None ((k+1)^(k-1) of them: 3 for two streams, 16 for three, 125 for four)"""
+    out = []
+    for f in itertools.product(*[[None] + [j for j in range(k) if j != i] for i in range(k)]):
+        ok = True
+        for i in range(k):
+            seen, c = set(), i
+            while c is not None and c not in seen:
+                seen.add(c)
+                c = f[c]
+            ok = ok and c is None
+        if ok:
+            out.append(f)
+    return out
+
+
+def extends_pdf(rng, k, ext, flate=False, gaps=False):
+    """PDF 1.5 written directly: k object streams that hold the whole document except the page content; group 0 holds the
+    catalog and the info dictionary, group 1 the page tree, every group some dictionaries with integer keys; stream i has
+    /Extends -> stream ext[i] unless ext[i] is None.  qpdf --object-streams=preserve writes the streams in group order
+    (the order in which it meets their first members), so `ext` is also the pattern in the QDF file."""
+    out = bytearray(b"%PDF-1.5\n%\xbf\xf7\xa2\xfe\n")
+    nxt = [1]
+
+    def new():
+        n = nxt[0]
+        nxt[0] += 1 + (rng.randrange(2) if gaps else 0)
+        return n
+    cat, info, pages, page, content, font = new(), new(), new(), new(), new(), new()
+    extras = [[new() for _ in range(rng.randint(1, 3))] for _ in range(k)]
+    stm = [new() for _ in range(k)]
+    rng.shuffle(stm)
+    xref_num = nxt[0]
+    groups = [[] for _ in range(k)]
+    groups[0] += [cat, info]
+    groups[1 % k] += [pages, page, font]
+    for g in range(k):
+        groups[g] += extras[g]
+    body = {cat: D(Type=N("Catalog"), Pages=Ref(pages), Extras=[Ref(x) for g in extras for x in g]),
+            info: D(Title=Str(b"extends " + repr(ext).encode())),
+            pages: D(Type=N("Pages"), Count=1, Kids=[Ref(page)], MediaBox=[0, 0, 612, 792]),
+            page: D(Type=N("Page"), Parent=Ref(pages), Contents=Ref(content), Resources=D(Font=D(F1=Ref(font)))),
+            font: D(Type=N("Font"), Subtype=N("Type1"), BaseFont=N("Helvetica"))}
+    for g in range(k):
+        for j, x in enumerate(extras[g]):
+            body[x] = D(Marker=Str(b"in group %d" % g), Value=40 + g, Index=j, Big=10 ** rng.randint(1, 12))
+    offs = {content: len(out)}
+    out += pdfgen.ser_indirect(content, Stream({}, b"BT /F1 12 Tf 72 720 Td (E) Tj ET\n"))
+    where = {}
+    for g in range(k):
+        pairs, data = [], b""
+        for i, n in enumerate(groups[g]):
+            pairs.append(b"%d %d" % (n, len(data)))
+            data += pdfgen.ser(body[n]) + b"\n"
+            where[n] = (stm[g], i)
+        header = b" ".join(pairs) + b"\n"
+        d = {b"Type": N("ObjStm"), b"N": len(groups[g]), b"First": len(header)}
+        if ext[g] is not None:
+            d[b"Extends"] = Ref(stm[ext[g]])
+        raw = header + data
+        if flate:
+            d[b"Filter"] = N("FlateDecode")
+            raw = zlib.compress(raw)
+        offs[stm[g]] = len(out)
+        out += pdfgen.ser_indirect(stm[g], Stream(d, raw))
+    xoff = len(out)
+    offs[xref_num] = xoff
+    size = xref_num + 1
+    ent = bytearray()
+    for n in range(size):
+        if n == 0:
+            ent += b"\x00" + (0).to_bytes(4, "big") + (65535).to_bytes(2, "big")
+        elif n in offs:
+            ent += b"\x01" + offs[n].to_bytes(4, "big") + b"\x00\x00"
+        elif n in where:
+            ent += b"\x02" + where[n][0].to_bytes(4, "big") + where[n][1].to_bytes(2, "big")
+        else:
+            ent += b"\x00" * 7
+    out += pdfgen.ser_indirect(xref_num, Stream({b"Type": N("XRef"), b"Size": size, b"W": [1, 4, 2], b"Root": Ref(cat), b"Info": Ref(info)}, bytes(ent)))
+    out += b"startxref\n%d\n%%%%EOF\n" % xoff
+    return bytes(out)
+
+
+def extends_docs(rng, quick):
+    """(name, bytes, pattern): every acyclic /Extends pattern over two and three object streams - none; first extends
+    second; second extends first; chains first -> second -> third in every order; two streams extending the same one ... -
+    (thorough: also a sample over four streams), half of them with compressed object streams / gaps in the numbering"""
+    pats = acyclic_extends(2) + acyclic_extends(3) + ([] if quick else rng.sample(acyclic_extends(4), 40))
+    out = []
+    for i, ext in enumerate(pats):
+        out.append(("extends%d" % i, extends_pdf(rng, len(ext), ext, flate=rng.random() < 0.5, gaps=rng.random() < 0.5), ext))
+    return out
+
+
+def extends_pattern(sd, idx):
+    """the /Extends pattern of a QDF file in file order: for each object stream the position (among the object streams)
+    of the one it extends, None, or -1 for a reference to something else"""
+    nums = [o.num for o in idx.objs if o.kind == "objstm"]
+    pat = []
+    for n in nums:
+        v = sd.objs.get((n, 0))
+        r = v.d.get(b"Extends") if isinstance(v, Stream) else None
+        pat.append(None if r is None else (nums.index(r.n) if isinstance(r, Ref) and r.n in nums else -1))
+    return tuple(pat)
+
+
+def objstm_dict_diffs(sd, sd2):
+    """object-stream dictionaries before / after fix-qdf of an unedited file (text of every pair that differs)"""
+    out = []
+    for (n, g), v in sorted(sd.objs.items()):
+        if isinstance(v, Stream) and v.d.get(b"Type") == Name(b"ObjStm"):
+            w = sd2.objs.get((n, g))
+            wd_ = w.d if isinstance(w, Stream) else None
+            if wd_ != v.d:
+                out.append("object stream %d: before %s, after %s" % (n, objstm_dict_text(v.d), objstm_dict_text(wd_) if wd_ is not None else repr(w)[:80]))
     return out
 
 
@@ -740,6 +1012,8 @@ def witness_files(wd):
     return out
 
 
+EXT_SUBOPTS = [["--no-original-object-ids"], ["--stream-data=preserve"], ["--normalize-content=n"], ["--decode-level=none"], ["--min-version=1.7"],
+               ["--compress-streams=y"], ["--coalesce-contents"]]
 MODES = ["disable", "preserve", "generate"]
 SUBOPTS = [[], ["--no-original-object-ids"], ["--stream-data=preserve"], ["--normalize-content=n"], ["--newline-before-endstream"],
            ["--decode-level=none"], ["--preserve-unreferenced"], ["--coalesce-contents"], ["--min-version=1.7"], ["--compress-streams=y"],
@@ -801,12 +1075,26 @@ def run(chk):
     quick = chk.tier == "quick"
     runner = os.path.join(common.EXTRACT, "model_runner")
     wd = common.workdir("C17")
+    by_oracle = {}
+    report = chk.violation
+
+    def counted(rep, signature="", no_input=False):
+        n0 = len(chk.violations)
+        report(rep, signature=signature, no_input=no_input)
+        if len(chk.violations) > n0:
+            key = (rep.get("correspondence") or rep.get("kind") or "?") if no_input else (signature.split(":")[0] or "?")
+            by_oracle[key] = by_oracle.get(key, 0) + 1
+            chk.cov["violations_by_oracle"] = by_oracle
+    chk.violation = counted
     chk.cov["rule"] = ("QDF files = real `qpdf --qdf` outputs of (generated documents | documents with special stream data | repository corpus files read "
                        "without warning) x object-streams {disable, preserve, generate} x QDF sub-options; on each: layout recogniser, identity and "
                        "idempotence of the real fix-qdf, model = binary byte for byte; then edit scripts of 1..6 layout-preserving edits (stream bytes, "
                        "dictionary keys, comments, stale numbers, appended objects): edited file passes the layout recogniser, model = binary, the repaired "
                        "file is strictly valid and denotes the edited document, repair is idempotent; plus layout-breaking edits (fatal paths): model = binary; plus preserved object streams with 255..258 (thorough: 65535..65537) members and files whose "
-                       "xref stream sits at offset 65535/65536 (thorough: 2^24-1..2^24+1), unedited and shifted by 1 / 300 bytes: model = binary, strict reader, qpdf --show-xref before = after. "
+                       "xref stream sits at offset 65535/65536 (thorough: 2^24-1..2^24+1), unedited and shifted by 1 / 300 bytes: model = binary, strict reader, qpdf --show-xref before = after; "
+                       "plus inputs with two and three object streams linked by /Extends in every acyclic pattern (none, first extends second, second extends first, chains in every order; thorough: "
+                       "a sample over four streams) written with --object-streams=preserve: same oracles, the object-stream dictionaries before and after fix-qdf are compared key by key, and aimed edit "
+                       "scripts (an edit inside each object stream, /Extends line removed / retargeted / added, a key added by hand to an object-stream dictionary). "
                        "non-trivial = distinct (input, options, edit script) whose repair completed")
     # ---- inputs
     inputs = []
@@ -836,6 +1124,13 @@ def run(chk):
                 jobs.append((name, p, kind, ["--qdf", "--object-streams=" + mode] + sub))
     for name, p, kind in fnd:
         jobs.append((name, p, kind, ["--qdf", "--object-streams=disable"]))
+    # preserved object streams with /Extends chains (qpdf's generate mode never writes /Extends): every acyclic pattern
+    ext_want = {}
+    for name, data, ext in extends_docs(rng, quick):
+        p = os.path.join(wd, name + ".pdf")
+        open(p, "wb").write(data)
+        ext_want[name] = ext
+        jobs.append((name, p, "extends", ["--qdf", "--object-streams=preserve"] + ([] if quick or rng.random() < 0.5 else rng.choice(EXT_SUBOPTS))))
 
     def runjob(i):
         name, p, kind, cfg = jobs[i]
@@ -856,6 +1151,7 @@ def run(chk):
     base = []
     nontriv = set()
     kinds = {}
+    ext_seen = {}       # /Extends pattern in file order -> number of QDF files
     for (i, out), lv, r, (ist, ipath, mst, mpath), (ist2, ipath2, mst2, mpath2) in zip(qdfs, lay, sr, rb, rb2):
         name, p, kind, cfg = jobs[i]
         case = {"input": p, "input_kind": kind, "argv": ["qpdf", "--static-id"] + cfg + [p, "out.qdf"], "then": ["fix-qdf", "out.qdf"]}
@@ -889,16 +1185,27 @@ def run(chk):
             idx = qdf_index(lines)
             xo = idx.objs[-1] if idx and idx.objs else None
             pre = b"".join(lines[:xo.hdr]) if xo else b""
+            if idx and sum(1 for o in idx.objs if o.kind == "objstm") > 1:
+                pat = extends_pattern(sd, idx)
+                ext_seen[pat] = ext_seen.get(pat, 0) + 1
+                if kind == "extends" and pat != ext_want.get(name):
+                    chk.cov.setdefault("extends_pattern_not_as_generated", []).append({"input": name, "generated": repr(ext_want.get(name)), "qdf": repr(pat)})
             r2 = filecheck.strict_read([ipath])[0]
             same_doc = False
+            ddiff = []
             if r2["ok"]:
                 sd2 = filecheck.StrictDoc(r2, ipath)
+                ddiff = objstm_dict_diffs(sd, sd2)
                 skip = {(xo.num, 0)} if xo else set()
                 same_doc = ({k: v for k, v in sd.objs.items() if k not in skip} == {k: v for k, v in sd2.objs.items() if k not in skip}
                             and sd.where == sd2.where and {k: v for k, v in sd.trailer.items() if k not in (b"W", b"Length")} == {k: v for k, v in sd2.trailer.items() if k not in (b"W", b"Length")})
             if "--newline-before-endstream" in cfg and r2["ok"] and only_objstm_length_plus_one(lines, split_lines(fixed), idx):
                 chk.violation(dict(case, kind="property-fails-on-implementation", why="fix-qdf on an unedited xref-stream QDF file changes the /Length of every object stream by one"),
                               signature="C17:newline-before-endstream-objstm-length")
+            elif ddiff:
+                chk.violation(dict(case, kind="property-fails-on-implementation", why="fix-qdf on an unedited QDF file changes the dictionary of an object stream", differences=ddiff[:4],
+                                   qdf_file_b64=base64.b64encode(data).decode() if len(data) < 60000 else None), signature=sig or "identity-objstm-dict")
+                ok = False
             elif not fixed.startswith(pre) or not same_doc:
                 chk.violation(dict(case, kind="property-fails-on-implementation", why="fix-qdf on an unedited xref-stream QDF file changes more than the /W widths"), signature=sig or "identity-xrefstream")
                 ok = False
@@ -913,16 +1220,26 @@ def run(chk):
     chk.cov["parts"]["unedited-qdf"]["qdf_writes_attempted"] = attempted
     chk.cov["parts"]["unedited-qdf"]["by_input_kind"] = kinds
     chk.cov["parts"]["unedited-qdf"]["with_xref_stream"] = sum(1 for _, _, _, sd in base if sd.xref_stream)
+    # files with several object streams, by /Extends pattern in file order; "with-before-without" = a stream that has
+    # /Extends precedes one that has none (what a per-stream field that is not reset would leak into)
+    chk.cov["parts"]["unedited-qdf"]["extends_patterns"] = {repr(k_): v for k_, v in sorted(ext_seen.items(), key=repr)}
+    wbw = sum(v for k_, v in ext_seen.items() if any(a is not None and b is None for i_, a in enumerate(k_) for b in k_[i_ + 1:]))
+    chk.cov["parts"]["unedited-qdf"]["extends_with_before_without"] = wbw
+    missing = [e_ for e_ in acyclic_extends(2) + acyclic_extends(3) if e_ not in ext_seen]
+    if missing:
+        chk.violation({"kind": "check-machinery", "what": "the /Extends patterns %s were not reached by any QDF file (generator harness/c17.py extends_pdf: qpdf no longer "
+                       "writes preserved object streams in the order of their first members?)" % missing[:5]}, no_input=True)
 
     # ---- layout-preserving edit scripts
     per_file = 4 if quick else 5
     ecases = []
     rejected = 0
+    ndirected = 0
     for (i, out, lines, sd) in base:
         idx = qdf_index(lines)
         if idx is None or not idx.objs:
             continue
-        for s in range(per_file):
+        for s in range(1 if jobs[i][2] == "extends" else per_file):      # (files with /Extends chains get aimed scripts below)
             sdc = filecheck.StrictDoc(sd.res, out)     # fresh copy of the object model
             e = make_edit(rng, lines, sdc, idx, rng.randint(1, 6))
             if e is None:
@@ -932,6 +1249,16 @@ def run(chk):
                 f.write(b"".join(e.lines))
             if os.path.getsize(ep) <= MAXSIZE:
                 ecases.append((i, ep, e))
+        # several object streams: an edit inside each of them, every kind of /Extends edit, both combined
+        nstm = sum(1 for o in idx.objs if o.kind == "objstm")
+        if nstm > 1 and (jobs[i][2] == "extends" or ndirected < (6 if quick else 40)):
+            ndirected += jobs[i][2] != "extends"
+            for s, e in enumerate(directed_scripts(rng, lines, lambda: filecheck.StrictDoc(sd.res, out), idx)):
+                ep = os.path.join(wd, "d%d_%d.qdf" % (i, s))
+                with open(ep, "wb") as f:
+                    f.write(b"".join(e.lines))
+                if os.path.getsize(ep) <= MAXSIZE:
+                    ecases.append((i, ep, e))
     lay = layout(runner, [c[1] for c in ecases])
     keep = []
     for c, lv in zip(ecases, lay):
@@ -947,6 +1274,7 @@ def run(chk):
     rb2 = run_both(runner, [r[1] for r in rb], wd, "ee")
     nontriv = set()
     nedits = {}
+    f5_seen = 0
     for (i, ep, e), (ist, ipath, mst, mpath), r, (ist2, ipath2, mst2, mpath2) in zip(ecases, rb, sr, rb2):
         name, p, kind, cfg = jobs[i]
         case = {"input": p, "input_kind": kind, "argv": ["qpdf", "--static-id"] + cfg + [p, "out.qdf"], "edit_script": e.script,
@@ -965,14 +1293,21 @@ def run(chk):
             continue
         probs = doc_problems(e, filecheck.StrictDoc(r, ipath))
         if probs:
-            chk.violation(dict(case, kind="property-fails-on-implementation", why="the repaired file does not denote the edited document", differences=probs), signature="edit-doc")
-            continue
+            chk.violation(dict(case, kind="property-fails-on-implementation", why="the repaired file does not denote the edited document", differences=probs),
+                          signature="C17:objstm-dict-key-dropped" if all(x.startswith("C17-F5: ") for x in probs) else "edit-doc")
+            if not all(x.startswith("C17-F5: ") for x in probs):
+                continue
+            f5_seen += 1
         if ist2 != "0" or not same_file(ipath, ipath2):
             chk.violation(dict(case, kind="property-fails-on-implementation", why="repairing the repaired file changes it (not idempotent)"), signature="edit-idempotent")
             continue
         nontriv.add((name, " ".join(cfg), tuple(e.script)))
     chk.count("edited-qdf", len(ecases), nontriv, samples=[{"input": jobs[c[0]][0], "options": " ".join(jobs[c[0]][3]), "script": c[2].script} for c in ecases[:3]])
     chk.cov["parts"]["edited-qdf"]["edits_per_script"] = nedits
+    chk.cov["parts"]["edited-qdf"]["known_finding_F5_cases"] = f5_seen
+    chk.cov["parts"]["edited-qdf"]["scripts_editing_extends"] = sum(1 for c in ecases if any("/Extends" in x for x in c[2].script))
+    chk.cov["parts"]["edited-qdf"]["scripts_editing_objstm_members"] = sum(1 for c in ecases if any("member of object stream" in x for x in c[2].script))
+    chk.cov["parts"]["edited-qdf"]["on_files_with_extends_chains"] = sum(1 for c in ecases if jobs[c[0]][2] == "extends")
     chk.cov["parts"]["edited-qdf"]["edit_generator_rejected_by_layout"] = rejected
     if rejected > max(5, len(ecases) // 10):
         chk.violation({"kind": "check-machinery", "what": "the edit generator produced %d scripts that break the layout rules (of %d)" % (rejected, rejected + len(ecases))}, no_input=True)
@@ -1063,7 +1398,7 @@ def replay(chk, rep):
     import json
     runner = os.path.join(common.EXTRACT, "model_runner")
     wd = common.workdir("C17-replay")
-    b64 = rep.get("edited_file_b64") or rep.get("file_b64")
+    b64 = rep.get("edited_file_b64") or rep.get("file_b64") or rep.get("qdf_file_b64")
     if not b64 and rep.get("first_cases"):
         b64 = rep["first_cases"][0].get("edited_file_b64") or rep["first_cases"][0].get("file_b64")
     if b64:
@@ -1081,5 +1416,17 @@ def replay(chk, rep):
     print("model                   :", mst, "->", mpath, "(same bytes)" if same_file(ipath, mpath) else "(DIFFERENT bytes)")
     r = filecheck.strict_read([ipath])[0]
     print("strict reader on the repaired file:", "ok" if r["ok"] else "rejected: %s at %s" % (filecheck.ERR.get(r["code"], r["code"]), r.get("at")))
+    dd = []
+    if r["ok"]:
+        # object-stream dictionaries of the case file (when it is itself a valid file) and of the repaired file
+        r0 = filecheck.strict_read([p])[0]
+        sd2 = filecheck.StrictDoc(r, ipath)
+        for (n, g), v in sorted(sd2.objs.items()):
+            if isinstance(v, Stream) and v.d.get(b"Type") == Name(b"ObjStm"):
+                print("repaired file, object stream %d: %s" % (n, objstm_dict_text(v.d)))
+        if r0["ok"] and not rep.get("edit_script"):
+            dd = objstm_dict_diffs(filecheck.StrictDoc(r0, p), sd2)
+            for x in dd:
+                print("fix-qdf changed the dictionary of an object stream of the unedited file:", x)
     print(json.dumps({k: v for k, v in rep.items() if "b64" not in k}, indent=1, default=str)[:2500])
-    return 0 if (ist == mst and same_file(ipath, mpath) and r["ok"]) else 1
+    return 0 if (ist == mst and same_file(ipath, mpath) and r["ok"] and not dd) else 1
